@@ -46,8 +46,9 @@ def _all_true(guards, env):
     return all(eval_cond_full(g, env) for g in guards)
 
 
-def _is_full_range(L, hi_atom):
-    return L.kind in ('range', 'prange') and L.lo == Rat.const(0) and L.hi == Rat.atom(hi_atom) and L.step == Rat.const(1)
+def _is_full_range(L, hi_atom, also=()):
+    his = [Rat.atom(hi_atom)] + [Rat.atom(a) for a in also]
+    return L.kind in ('range', 'prange') and L.lo == Rat.const(0) and L.hi in his and L.step == Rat.const(1)
 
 
 class Ctx:
@@ -73,7 +74,7 @@ def check(prog, rep):
     kc = kcs[0]
     call, f = kc.node, kc.callee
     entry = 'regions'
-    k = interpret(prog, f, strict=False)
+    k = interpret(prog, f, strict=False, inline_procedures=True)      # a relabelling loop moved into a helper reads as written in place
     outs = returned_arrays(k)
     if len(outs) != 1:
         raise AnalysisIncomplete('regions kernel: expected exactly one returned label array')
@@ -444,7 +445,10 @@ def check_pass2(c):
     repl = []
     bad = []
     for s in stores:
-        if len(s.loops) >= 5 and _is_full_range(s.loops[-2], c.rows) and _is_full_range(s.loops[-1], c.cols) and \
+        # the label array has the raster's shape (allocated like it): its own extents are the same ranges
+        orows = [App('shape', [c.out.name, 0])] if getattr(c.out, 'like', None) is not None or True else []
+        ocols = [App('shape', [c.out.name, 1])]
+        if len(s.loops) >= 5 and _is_full_range(s.loops[-2], c.rows, orows) and _is_full_range(s.loops[-1], c.cols, ocols) and \
                 tuple(s.idx) == (Rat.sym(s.loops[-2].var), Rat.sym(s.loops[-1].var)):
             repl.append(s)
         else:
